@@ -226,7 +226,15 @@ def run_jobs(modname, specs, nproc=None):
         out = [_run_one(s) for s in specs]
     else:
         ctx = multiprocessing.get_context("fork")
-        with ctx.Pool(nproc, initializer=_init_worker, initargs=(modname,)) as pool:
+        # import everything once in the parent (forked workers inherit it) and give every job a fresh worker process: kafe2 fits are
+        # never freed (the iminuit object, a C++ extension type, holds the cost wrapper of the adapter that owns it - a cycle the
+        # collector cannot see), so a long-lived worker of an explorer that builds ~1e5 fits grows by gigabytes
+        _init_worker(modname)
+        try:
+            import kafe2  # noqa: F401
+        except Exception:  # noqa: BLE001
+            pass
+        with ctx.Pool(nproc, initializer=_init_worker, initargs=(modname,), maxtasksperchild=1) as pool:
             out = list(pool.imap_unordered(_run_one, specs, chunksize=1))
     errs = [o[1] for o in out if o[0] == "err"]
     if errs:
